@@ -499,6 +499,8 @@ class Interp:
             if isinstance(a,Ptr) and op=='and' and b==1: env[res]=0; return
             if isinstance(a,Ptr) and isinstance(b,Ptr) and op=='sub':
                 assert a.obj==b.obj,(a,b); env[res]=binop('sub',a.off,b.off,64); return
+            if op in ('shl','lshr','ashr') and getattr(s,'concretize_shifts',False) and not isinstance(a,list) and not is_c(b):
+                w_=resolve(t).w; b=s.concretize(z3.ZeroExt(64-w_,b) if w_<64 else b,list(range(0,w_)))       # shift amounts are structural: solver-enumerated forks
             env[res]=vecmap(lambda x,y:binop(op,x,y,resolve(t).el.w if isinstance(resolve(t),VecT) else resolve(t).w),a,b); return
         if op in ('fadd','fsub','fmul','fdiv'):
             rest=re.sub(r'^((fast|nnan|ninf|nsz|arcp|contract|afn|reassoc)\s+)+','',rest); t,i=s.tp.parse(rest); a,b=[s.operand(env,t,x) for x in split_top(rest[i:])]
